@@ -495,8 +495,7 @@ impl SequenceStreamMerger {
             }
         }
 
-        // Infer schema from first event
-        let first_event = &events[0];
+        // Infer schema from the events (core fields + union of their payload fields)
         let mut columns = vec![
             ColumnSpec {
                 name: "event_type".to_string(),
@@ -512,12 +511,17 @@ impl SequenceStreamMerger {
             },
         ];
 
-        // Add payload fields
-        for (field, _value) in &first_event.payload {
-            columns.push(ColumnSpec {
-                name: field.clone(),
-                logical_type: "String".to_string(), // Simplified - would infer actual type
-            });
+        // Add payload fields of all events in first-seen order: the event types of a sequence
+        // have different fields, the first event alone would drop those of the other type
+        for event in &events {
+            for (field, _value) in &event.payload {
+                if !columns.iter().any(|c| &c.name == field) {
+                    columns.push(ColumnSpec {
+                        name: field.clone(),
+                        logical_type: "String".to_string(), // Simplified - would infer actual type
+                    });
+                }
+            }
         }
 
         if tracing::enabled!(tracing::Level::DEBUG) {
